@@ -28,6 +28,18 @@ CLAIMS = {
    technique="contract-based deductive verification (pyvc VCs from the real AST + ghost trace + hand-instantiated string lemmas; z3/cvc5); "
              "bounded native contract checking as labelled stand-in and replay",
    design_ref="DESIGN.md section 7 (C20)"),
+ "C07": dict(
+   text="Deductive proof, for every and/or group (no bound on depth or width) and every valuation of its leaves (an uninterpreted "
+        "predicate), that the real normalize_element_groups / flatten_or_group return one `or` of `and`s of leaves (the shape the "
+        "fork/merge expansion relies on) and that the normal form is satisfied only if the original formula is (a match never "
+        "completes before its formula holds). The converse direction and the run-time head protocol (completion at exactly the "
+        "first satisfying event) are covered only by the bounded stand-in, labelled bounded.",
+   note="Assumed: groups are acyclic trees of Spec leaves and {_type, elements} dicts (wf precondition); a class is never both a Spec and "
+        "a dict (A-CLASSES); value-mode frozen-heap encoding (DESIGN.md 3.3). Unverified: the fork/merge/wait-for-heads protocol in "
+        "slide/run_to_completion; _expand_match_element/_expand_await_element/_expand_when_stmt_element emission (bounded only).",
+   technique="contract-based deductive verification (pyvc VCs from the real AST, recursion through the function's own contract, loop and "
+             "comprehension contracts, fueled recursive spec; z3) + bounded native contract checking through the real interpreter",
+   design_ref="DESIGN.md section 7 (C07)"),
 }
 NA_DEFAULT = "check not built yet (build in progress; see DESIGN.md section 7 for the plan)"
 NA = {}
